@@ -27,7 +27,7 @@ LEVEL_NOTE = ("battery pool stubbed at _data_pipeline.new_battery_pool (bounds c
 RULE = ("random histories of 3-40 events over 1-2 component groups, 1-3 regular and 1-2 operating-point actors with "
         "distinct priorities; plus the two documented operating-point tables as fixed cases. distinct = canonical "
         "history JSON; non-trivial = >=1 request observed after both resolvers hold a target")
-REQUIRED_BUCKETS = ["regular-and-operating-point-actor-with-the-same-priority", "manager-created-by-the-power-wrapper", "proposals-issued-in-one-loop-iteration", "two-actors-with-the-same-priority", "manager-of:pv", "manager-of:ev",
+REQUIRED_BUCKETS = ["proposal-with-a-NaN-bound", "regular-and-operating-point-actor-with-the-same-priority", "manager-created-by-the-power-wrapper", "proposals-issued-in-one-loop-iteration", "two-actors-with-the-same-priority", "manager-of:pv", "manager-of:ev",
                     "bounds-only-step-with-request", "only-one-target-changed", "both-targets-nonzero",
                     "expiry", "partial-failure-resend", "late-partial-failure-resend", "bounds-None", "doc-table", "request-on-bound"]
 REQUIRED_COUNTERS = ["requests_checked", "reported_targets_compared", "reports_checked", "expired_kind_checks"]
@@ -76,6 +76,7 @@ def gen(rng: Any, tier: str, i: int) -> Any:
         # to the reports on its own
         actors.append({"src": "r0b", "prio": prios[0], "op": False})
     events: list[dict[str, Any]] = []
+    nan_bounds = rng.random() < 0.15
 
     def bounds_ev(g: int) -> dict[str, Any]:
         if rng.random() < 0.08:
@@ -90,6 +91,13 @@ def gen(rng: Any, tier: str, i: int) -> Any:
         pref = rng.choice([None, -2000.0, -800.0, -300.0, -50.0, 0.0, 50.0, 300.0, 800.0, 2000.0])
         lo = rng.choice([None, None, None, -1000.0, -200.0, 0.0])
         hi = rng.choice([None, None, None, 1000.0, 200.0, 0.0])
+        if nan_bounds and rng.random() < 0.15:
+            # a proposal whose bound is NaN (an actor computed it from missing data): whatever it does to the actors'
+            # targets, the request must stay inside the system bounds
+            if rng.random() < 0.5:
+                lo = "nan"
+            else:
+                hi = "nan"
         return {"k": "prop", "g": g, "op": a["op"], "src": a["src"], "prio": a["prio"], "pref": pref, "lo": lo, "hi": hi}
 
     for g in range(ng):
@@ -197,11 +205,20 @@ async def _drive(case: dict[str, Any], out: dict[str, Any]) -> None:
                             else fakes.pv_topology([31, 32]))
             fakes.install_connection_manager(comps, conns)
             wrapper = PowerWrapper(reg, api_power_request_timeout=_td(seconds=5), **ckw)
-            req_rx = wrapper._power_distribution_requests_channel.new_receiver(limit=1000)  # noqa: SLF001
+            # the wrapper's channels: the results channel through its public fetcher, the requests channel as the one
+            # Broadcast it holds besides the public ones (private attribute names are not relied on)
+            results_ch = wrapper.distribution_results_fetcher()
+            public = [wrapper.status_channel, wrapper.proposal_channel, wrapper.bounds_subscription_channel, results_ch]
+            others = [v for v in vars(wrapper).values() if isinstance(v, Broadcast) and not any(v is c for c in public)]
+            if len(others) != 1:
+                from ..common import HarnessError
+
+                raise HarnessError(f"PowerWrapper holds {len(others)} candidate request channels")
+            req_rx = others[0].new_receiver(limit=1000)
             wrapper._start_power_managing_actor()  # noqa: SLF001
-            actor = wrapper._power_managing_actor  # noqa: SLF001
+            actor = next(v for v in vars(wrapper).values() if isinstance(v, PowerManagingActor))
             ptx, stx = wrapper.proposal_channel.new_sender(), wrapper.bounds_subscription_channel.new_sender()
-            rtx = wrapper._power_distribution_results_channel.new_sender()  # noqa: SLF001
+            rtx = results_ch.new_sender()
             out["via_wrapper"] = True
         else:
             actor = PowerManagingActor(prop_ch.new_receiver(limit=1000), sub_ch.new_receiver(limit=1000),
@@ -333,6 +350,8 @@ def check(case: dict[str, Any], rec: Any) -> None:
     pr_op = {e["prio"] for e in case["events"] if e["k"] == "prop" and e["op"]}
     if pr_reg & pr_op:
         rec.bucket("regular-and-operating-point-actor-with-the-same-priority")
+    if any(e["k"] == "prop" and "nan" in (e.get("lo"), e.get("hi")) for e in case["events"]):
+        rec.bucket("proposal-with-a-NaN-bound")
     if any(len(v) > len({x for x in v if not x.endswith("b")}) for v in subscribers.values()):
         rec.bucket("two-actors-with-the-same-priority")
     for cid in out.get("pool_requests", []):
